@@ -476,8 +476,15 @@ def gen_session(session_seed, pid, tier, profile=None):
         elif op == "subtrace":
             steps.append({"op": "subtrace", "src": src["name"]})
         elif op == "abort":
-            kind = rng.choice(["missing", "stray", "unsupported"])
+            kinds_ab = ["missing", "stray", "unsupported"]
+            if pid == "C22":
+                kinds_ab += ["reuse", "reuse", "reuse-hier"]
+            kind = rng.choice(kinds_ab)
             st = {"op": "abort", "kind": kind, "src": src["name"], "key": key()}
+            if kind in ("reuse", "reuse-hier"):
+                st["variant"] = rng.randrange(1 << 16)
+                st["api"] = rng.choice(["simulate", "importance", "propose"])
+                st["stage"] = rng.choice(["eager", "eager", "jit"])
             if kind == "missing":
                 st["drop"] = rng.random()
             elif kind == "stray":
